@@ -397,7 +397,14 @@ def _run_reject(case):
     flags["spheres_with_nested_spheres"] = rejects(Spheres, [good, Spheres([good])])
     flags["spheres_with_number"] = rejects(Spheres, [good, 3.0])
     S = Spheres([good])
+    from vf.monitors import digest as _dg
+    d_S = _dg(S)
     flags["add_nonsphere"] = rejects(S.add, Ellipsoid(n=1.5, r=(1, 1, 1), center=(3, 3, 3)))
+    # ... and a refused member is not in the collection afterwards
+    flags["refused_member_not_kept"] = bool(_dg(S) == d_S and len(S.scatterers) == 1 and S.overlaps == [] and S.largest_overlap() == 0)
+    S4 = Spheres([Sphere(n=1.5, r=0.5, center=(2.0 * j, 0, 0)) for j in range(4)])
+    rejects(S4.add, Ellipsoid(n=1.5, r=(1, 1, 1), center=(0.2, 0, 0)))
+    flags["refused_member_not_kept"] &= bool(len(S4.scatterers) == 4 and all(isinstance(m_, Sphere) for m_ in S4.scatterers) and S4.overlaps == [])
     # accepted inputs stay accepted
     ok = True
     try:
